@@ -204,6 +204,10 @@ class TokenStore(Generic[_T]):
     def _splice(self, tokens: Sequence[_T], start: tuple[int, int], end: tuple[int, int]) -> None:
         start_i, start_j = start
         end_i, end_j = end
+        if end < start:
+            raise ValueError('The end of the range comes before its start.')
+        if len({id(token) for token in tokens}) != len(tokens):
+            raise ValueError('The same token is listed twice.')
 
         for token in tokens:
             if token.store_handle is not None and not (
